@@ -37,7 +37,7 @@ for e in find:
 print()
 sd = ROOT / "seeded"
 if sd.exists():
-    print("| seeded change | property | pinned tests | demo (repo / patched) | detected by | what the check reported |")
+    print("| seeded change | what was changed (seeder's own title) | pinned tests | demo (repo / patched) | detected by | what the check reported |")
     print("|---|---|---|---|---|---|")
     for d in sorted(sd.iterdir()):
         m = d / "meta.json"
@@ -46,5 +46,11 @@ if sd.exists():
         j = json.loads(m.read_text())
         rep = j.get("first_replay", {})
         what = (rep.get("reason") or rep.get("kind") or "") if isinstance(rep, dict) else ""
-        print(f"| {j['id']} | {j['property']} | {'pass' if j.get('pinned_tests_pass') else 'FAIL'} | {j.get('demo_on_repo_rc')} / {j.get('demo_on_patched_rc')} | "
+        notes = d / "notes.md"
+        title = ""
+        if notes.exists():
+            first = next((l for l in notes.read_text().splitlines() if l.strip()), "")
+            title = re.sub(r"^#+\s*", "", first)
+            title = re.sub(r"^%s\s*[-–—:]+\s*" % re.escape(j["id"]), "", title)
+        print(f"| {j['id']} | {title[:170].replace('|', '/')} | {'pass' if j.get('pinned_tests_pass') else 'FAIL'} | {j.get('demo_on_repo_rc')} / {j.get('demo_on_patched_rc')} | "
               f"{'`./check ' + j['property'] + '` (quick)' if j.get('detected') else 'MISSED'} | {str(what)[:160].replace('|', '/')} |")
